@@ -992,8 +992,8 @@ func (w *vfWorld) record(rq vfReq, in *vfInstance, req *http.Request, jar map[st
 	if o.Panic != nil {
 		status = 999
 	}
-	obsTerm := fmt.Sprintf("(mkResp %d %s %s %s %s %s %s)", status, w.locationTerm(o, req), w.setCookiesTerm(o),
-		w.bodyTerm(o), w.fwdTerm(rq, o), vfBool(o.CORS), w.callsTerm(o))
+	obsTerm := fmt.Sprintf("(mkResp %d %s %s %s %s %s %s %s)", status, w.locationTerm(o, req), w.setCookiesTerm(o),
+		w.bodyTerm(o), w.fwdTerm(rq, o), vfBool(o.CORS), w.callsTerm(o), w.flagsTerm(req, jar, o))
 	step := fmt.Sprintf("(mkStep %d %d %s %s (%d, %d, %d) %s %s %d)", in.idx, rq.Browser, vfZ(now), rqTerm,
 		csrf, nonce, verifier, w.answerTerm(o), obsTerm, rq.Tag)
 	w.steps = append(w.steps, step)
@@ -1001,6 +1001,175 @@ func (w *vfWorld) record(rq vfReq, in *vfInstance, req *http.Request, jar map[st
 		"set_cookies": len(o.Cookies), "downstream": o.Down, "calls": len(o.Calls), "target": vfTrunc(rq.Target, 120),
 		"tag": rq.Tag, "panic": fmt.Sprint(o.Panic)})
 	w.noteTemplates()
+}
+
+// ---- anomalies found in the raw response (the model never predicts any)
+
+func vfHasMarkup(s string) bool { return strings.ContainsAny(s, "<>\"'&") }
+
+func (w *vfWorld) clientStrings(req *http.Request, jar map[string]string) []string {
+	var out []string
+	for _, vs := range req.URL.Query() {
+		out = append(out, vs...)
+	}
+	out = append(out, req.URL.Path, req.URL.RawQuery, req.Host)
+	for _, h := range []string{"Accept", "Origin", "X-Forwarded-Host", "X-Forwarded-Proto", "User-Agent", "Referer"} {
+		out = append(out, req.Header.Values(h)...)
+	}
+	for _, v := range jar {
+		out = append(out, v)
+	}
+	return out
+}
+
+func (w *vfWorld) cookieLineBad(line string) bool {
+	parts := strings.Split(line, ";")
+	nv := strings.SplitN(parts[0], "=", 2)
+	if !strings.HasPrefix(strings.TrimSpace(nv[0]), "_oidc_raczylo_") {
+		return true
+	}
+	has := map[string]string{}
+	for _, p := range parts[1:] {
+		kv := strings.SplitN(strings.TrimSpace(p), "=", 2)
+		v := ""
+		if len(kv) == 2 {
+			v = kv[1]
+		}
+		has[strings.ToLower(kv[0])] = v
+	}
+	if has["path"] != "/" {
+		return true
+	}
+	if _, ok := has["httponly"]; !ok {
+		return true
+	}
+	if strings.ToLower(has["samesite"]) != "lax" {
+		return true
+	}
+	if ma, ok := has["max-age"]; ok {
+		if n, err := strconv.Atoi(ma); err != nil || n > 86400 {
+			return true
+		}
+	} else {
+		return true // a session cookie without Max-Age would outlive the 24 h bound only by browser policy; the code always sets it
+	}
+	if w.cfg.ForceHTTPS {
+		if _, ok := has["secure"]; !ok {
+			return true
+		}
+	}
+	return false
+}
+
+// secrets the deployment put into cookies of this world so far
+func (w *vfWorld) secrets(o *vfObserved) [][]byte {
+	var out [][]byte
+	add := func(s string) {
+		if len(s) >= 8 {
+			out = append(out, []byte(s))
+		}
+	}
+	for _, t := range w.textOwner {
+		add(t)
+		c := w.comp(t)
+		if len(c) > 48 {
+			add(c[12:48]) // a stretch of the compressed text past the constant gzip header
+		}
+	}
+	for _, m := range w.tokens {
+		if e, ok := m.Spec.Email.(string); ok {
+			add(e)
+		}
+	}
+	for _, c := range o.Cookies {
+		if cn, ok := vfCname(c.Name); ok && cn == "CMain" {
+			if _, _, vals, ok := w.decodeCookie(c.Name, c.Value); ok {
+				for _, k := range []string{"csrf", "nonce", "code_verifier", "email"} {
+					if s, ok := vals[k].(string); ok {
+						add(s)
+					}
+				}
+			}
+		}
+	}
+	return out
+}
+
+// vfKeylessViews: what a party WITHOUT the key can derive from a cookie value by decoding alone
+func vfKeylessViews(value string) [][]byte {
+	var views [][]byte
+	outer, err := base64.URLEncoding.DecodeString(value)
+	if err != nil {
+		return views
+	}
+	views = append(views, outer)
+	parts := bytes.SplitN(outer, []byte("|"), 3)
+	if len(parts) == 3 {
+		if inner, err := base64.URLEncoding.DecodeString(string(parts[1])); err == nil {
+			views = append(views, inner)
+		}
+	}
+	return views
+}
+
+func (w *vfWorld) flagsTerm(req *http.Request, jar map[string]string, o *vfObserved) string {
+	flags := map[int]bool{}
+	ct := o.CType
+	if !o.Down && o.Body != "" {
+		switch {
+		case strings.HasPrefix(ct, "text/html"):
+			for _, d := range w.clientStrings(req, jar) {
+				if len(d) >= 3 && vfHasMarkup(d) && strings.Contains(o.Body, d) {
+					flags[1] = true
+				}
+			}
+		case strings.HasPrefix(ct, "application/json"):
+			var m map[string]interface{}
+			if json.Unmarshal([]byte(o.Body), &m) != nil {
+				flags[1] = true
+			} else if o.Status >= 400 {
+				_, d1 := m["error_description"].(string)
+				_, d2 := m["message"].(string)
+				if !d1 && !d2 {
+					flags[1] = true
+				}
+			}
+		default:
+			if o.Status >= 400 && !(strings.HasPrefix(ct, "text/plain") && o.NoSniff) {
+				flags[1] = true
+			}
+		}
+	}
+	for _, line := range o.RawSet {
+		if w.cookieLineBad(line) {
+			flags[2] = true
+		}
+		if len("Set-Cookie: ")+len(line) > 4096+len("Set-Cookie: ") {
+			flags[3] = true
+		}
+	}
+	if len(o.Cookies) > 0 {
+		secrets := w.secrets(o)
+		for _, c := range o.Cookies {
+			for _, view := range vfKeylessViews(c.Value) {
+				for _, s := range secrets {
+					if bytes.Contains(view, s) {
+						flags[4] = true
+					}
+				}
+			}
+		}
+	}
+	if o.Panic != nil {
+		flags[5] = true
+	}
+	var parts []string
+	for f := 1; f <= 5; f++ {
+		if flags[f] {
+			parts = append(parts, strconv.Itoa(f))
+		}
+	}
+	return "[" + strings.Join(parts, "; ") + "]"
 }
 
 func base64Raw(s string) ([]byte, error) { return base64.RawURLEncoding.DecodeString(s) }
